@@ -34,37 +34,56 @@ theorem C01_only_addressed (lib : Lib) (fuel : Nat) (w : World) (entry : String)
     (choices : List Nat) :
     (∀ k e u, (routeAt lib fuel w entry r choices).1.outcome = .served k e u →
         endpointOf lib r = some e ∧ u ∈ w.reg k e ∧
-        (routeAt lib fuel w entry r choices).1.visited.getLast? = some k) ∧
+        (routeAt lib fuel w entry r choices).1.visited.getLast? = some k ∧ w.isGone k e u = false) ∧
     (∀ m, w.nodes.find entry = some m → endpointOf lib r = none → 1 ≤ fuel →
         (routeAt lib fuel w entry r choices).1 = { visited := [entry], via := [], outcome := .badRequest entry }) := by
   constructor
   · intro k e u h
-    obtain ⟨h1, h2, h3⟩ := routeAt_served lib fuel w entry r choices k e u h
-    exact ⟨h2, h1, h3⟩
+    obtain ⟨h1, h2, h3, h4⟩ := routeAt_served lib fuel w entry r choices k e u h
+    exact ⟨h2, h1, h3, h4⟩
   · intro m hn he hf
     obtain ⟨f, rfl⟩ : ∃ f, fuel = f + 1 := ⟨fuel - 1, by omega⟩
     exact routeAt_badRequest lib f w entry m r choices hn he
 
-/-- Routing changes nobody's registration: after any request the same upstreams are
-registered for the same endpoints on the same nodes (only round-robin cursors moved). -/
+/-- Routing changes registrations in one way only: an upstream that answered `ErrGone` when it
+was dialled is removed (`RemoveConn`) from the node that dialled it (`regAfter`); after any
+other request the same upstreams are registered for the same endpoints on the same nodes (only
+round-robin cursors moved).  In particular nothing is ever added, and nothing is removed
+from any other node or endpoint. -/
 theorem C01_registry_stable (lib : Lib) (fuel : Nat) (w : World) (entry : String) (r : Req)
     (choices : List Nat) (k e : String) :
-    (routeAt lib fuel w entry r choices).2.reg k e = w.reg k e :=
-  (routeAt_world lib fuel w entry r choices).1 k e
+    (routeAt lib fuel w entry r choices).2.reg k e =
+      regAfter (routeAt lib fuel w entry r choices).1.outcome w k e ∧
+    ((∀ k0 e0 u, (routeAt lib fuel w entry r choices).1.outcome ≠ .gone k0 e0 u) →
+      (routeAt lib fuel w entry r choices).2.reg k e = w.reg k e) ∧
+    (∀ x, x ∈ (routeAt lib fuel w entry r choices).2.reg k e → x ∈ w.reg k e) := by
+  have h := (routeAt_world lib fuel w entry r choices).1 k e
+  refine ⟨h, fun hn => ?_, fun x hx => ?_⟩
+  · rw [h]; unfold regAfter
+    split
+    · rename_i k0 e0 u ho; exact absurd ho (hn k0 e0 u)
+    · rfl
+  · rw [h] at hx; unfold regAfter at hx
+    split at hx
+    · split at hx
+      · exact List.mem_of_mem_erase hx
+      · exact hx
+    · exact hx
 
 /-- Once routing information has settled (`Settled`: every row about another node is that
 node's truth - active, its real address, serving `e` exactly when it has an upstream for `e` -
 and every node knows every other), a client request for endpoint `e` entering at ANY node is
 delivered to an upstream of `e` if some node has one, and answered 502 by the entry node if
-none has. -/
-theorem C01_settled (lib : Lib) (w : World) (hs : Settled w) (entry : String) (m : Mgr)
+none has (`NoGone`: no registered upstream has stopped accepting - one that has is removed by
+the first request that dials it, which is answered 502). -/
+theorem C01_settled (lib : Lib) (w : World) (hs : Settled w) (hng : NoGone w) (entry : String) (m : Mgr)
     (hn : w.nodes.find entry = some m) (r : Req) (hnf : r.forwarded = false) (e : String)
     (he : endpointOf lib r = some e) (choices : List Nat) :
     ((∃ k, w.reg k e ≠ []) →
         ∃ k u, (route lib w entry r choices).1.outcome = .served k e u ∧ u ∈ w.reg k e) ∧
     ((∀ k, w.reg k e = []) →
         (route lib w entry r choices).1 = { visited := [entry], via := [], outcome := .noUpstream entry }) :=
-  route_settled lib w hs 1 entry m hn r hnf e he choices
+  route_settled lib w hs hng 1 entry m hn r hnf e he choices
 
 /-- obligations on the two library-independent steps of `EndpointIDFromRequest`: the header
 wins over `Host`; without a header an IP, a single label and an empty host give nothing. -/
@@ -179,10 +198,10 @@ private theorem settled2_ok : Settled settled2 := by
     · exact ⟨row "n0" "a0" [], by simp [node, AMap.vals], rfl⟩
     · exact absurd rfl hkn
 
-example : Settled settled2 ∧
+example : Settled settled2 ∧ NoGone settled2 ∧
     (route lib0 settled2 "n0" { host := "bar.example.com" } []).1.outcome = .served "n1" "bar" 5 ∧
     (route lib0 settled2 "n1" { host := "foo.example.com" } []).1.outcome = .noUpstream "n1" :=
-  ⟨settled2_ok, by decide, by decide⟩
+  ⟨settled2_ok, fun _ _ _ => rfl, by decide, by decide⟩
 
 end C01Ex
 end Piko
